@@ -354,6 +354,8 @@ class Sim:
         """make_coro(mpc, mods, pid) -> coroutine for that party. Returns list of results:
         value, or ('EXC', repr) or 'PENDING'."""
         policy = policy or Fifo()
+        if self.m == 1:
+            idle_limit = max(idle_limit, 10**7)     # a single party never waits for messages
         futs = [asyncio.ensure_future(make_coro(self.mpcs[i], self.mods[i], i), loop=self.loop)
                 for i in range(self.m)]
         idle = 0
